@@ -150,7 +150,7 @@ func c01Finding(k jsonCase, v reflect.Value) string       { return "" }
 func c01FindingNoHTML(k jsonCase, v reflect.Value) string { return "" }
 
 func c01Vector(c *Ctx, raw stdjson.RawMessage) {
-	if encStreamDispatch(c, raw) {
+	if encStreamDispatch(c, raw) || b64Dispatch(c, "C01", raw) {
 		return
 	}
 	if strDispatch(c, raw) {
@@ -418,7 +418,7 @@ func c01Numbers(c *Ctx) {
 }
 
 func c01Replay(c *Ctx, raw stdjson.RawMessage) {
-	if encStreamDispatch(c, raw) {
+	if encStreamDispatch(c, raw) || b64Dispatch(c, "C01", raw) {
 		return
 	}
 	if strDispatch(c, raw) {
@@ -1084,7 +1084,7 @@ func c02Finding(k jsonCase, doc string, t reflect.Type) string {
 var c02Modes = []string{"Unmarshal", "Parse", "Decoder", "UseNumber", "Disallow", "UseNumber+Disallow"}
 
 func c02Vector(c *Ctx, raw stdjson.RawMessage) {
-	if strDispatch(c, raw) {
+	if b64Dispatch(c, "C02", raw) || strDispatch(c, raw) {
 		return
 	}
 	var gv grammarVec
@@ -1192,7 +1192,7 @@ func c02Grammar(c *Ctx, gv *grammarVec, raw stdjson.RawMessage) {
 }
 
 func c02Replay(c *Ctx, raw stdjson.RawMessage) {
-	if strDispatch(c, raw) {
+	if b64Dispatch(c, "C02", raw) || strDispatch(c, raw) {
 		return
 	}
 	var k jsonCase
